@@ -447,6 +447,7 @@ func TestC16(t *testing.T) {
 	codecPairs, totalEvaluated := 0, 0
 	ec, ecReal := &engineCounters{}, &engineCounters{}
 	nTagProbes := 0
+	var tTags, tRestart time.Duration
 	for _, ba := range autos {
 		b, impl := ba.b, ba.impl
 		info := map[string]any{"states": impl.states(), "initial": impl.initial()}
@@ -518,11 +519,14 @@ func TestC16(t *testing.T) {
 				probeStates = append(probeStates, st)
 			}
 		}
+		tp0 := time.Now()
 		for _, st := range probeStates {
 			nTagProbes += probeWireTags(b, impl, b.sm == nil, st, acc[st], rec.Eval, vfail)
 		}
+		tTags += time.Since(tp0)
 		// a server that restarts its protocol after the client's Done starts over
 		if rc, ok := restartCases[b.id]; ok {
+			tr0 := time.Now()
 			rec.Eval()
 			if why := restartProbe(b, impl, rc, vfail); why == "" {
 				rec.Class("restart_initial_state_confirmed")
@@ -530,12 +534,14 @@ func TestC16(t *testing.T) {
 			} else {
 				rec.Class("restart_probe_no_verdict: " + why)
 			}
+			tRestart += time.Since(tr0)
 		}
 		summary[b.id] = info
 	}
 	rec.SetExtra("wire_tag_probes", nTagProbes)
 	rec.SetExtra("automata", summary)
-	rec.SetExtra("phase_seconds", map[string]float64{"learn": tLearn.Seconds(), "static_and_enumerated_engine": (time.Since(t0) - tLearn).Seconds()})
+	rec.SetExtra("phase_seconds", map[string]float64{"learn": tLearn.Seconds(), "static_and_enumerated_engine": (time.Since(t0) - tLearn).Seconds(),
+		"of_which_wire_tag_probes": tTags.Seconds(), "of_which_restart_probes": tRestart.Seconds()})
 	rec.SetExtra("codec_state_msg_pairs", codecPairs)
 	rec.SetExtra("exhaustive_depth", depth)
 	rec.SetExtra("engine_exhaustive_depth", engineDepth)
